@@ -13,7 +13,9 @@
 EXTENDS Integers, Sequences, FiniteSets, TLC, Json, Rat
 CONSTANTS Shapes,              \* shapes enumerated, each coded rows * 10 + cols (a .cfg cannot hold tuples)
           Variants,            \* affine images of the base matrix computed exactly here (see Img)
-          Mod, Res,            \* deterministic sample: keep the cases whose code is congruent Res modulo Mod (Mod = 1: all)
+          TypeCodes,           \* options enumerated, each coded type + 1 (a .cfg cannot hold negative numbers in a set)
+          ModX, ResX,          \* deterministic sample of matrices: keep those whose code is congruent ResX modulo ModX (1: all)
+          Mod, Res,            \* deterministic sample of cases (matrix, variant, option): code congruent Res modulo Mod (1: all)
           MaxMissing
 MISSING == 99999999
 Vals == -2..3
@@ -38,8 +40,12 @@ Nn(x) == CntIdx(x, Len(x))
 S1(x) == SumIdx(x, Len(x))
 S2(x) == SqIdx(x, Len(x))
 PresentVals(x) == {x[i] : i \in Present(x)}
-Mx(x) == LET P == PresentVals(x) IN CHOOSE m \in P : \A w \in P : w <= m
-Mn(x) == LET P == PresentVals(x) IN CHOOSE m \in P : \A w \in P : w >= m
+RECURSIVE MxIdx(_, _, _)
+MxIdx(x, k, m) == IF k = 0 THEN m ELSE MxIdx(x, k - 1, IF x[k] # MISSING /\ (m = MISSING \/ x[k] > m) THEN x[k] ELSE m)
+RECURSIVE MnIdx(_, _, _)
+MnIdx(x, k, m) == IF k = 0 THEN m ELSE MnIdx(x, k - 1, IF x[k] # MISSING /\ (m = MISSING \/ x[k] < m) THEN x[k] ELSE m)
+Mx(x) == MxIdx(x, Len(x), MISSING)                       \* largest / smallest present value (the column has one)
+Mn(x) == MnIdx(x, Len(x), MISSING)
 Stats(x) == LET N == Nn(x) s1 == S1(x) s2 == S2(x) IN
             [N |-> N, S1 |-> s1, S2 |-> s2,
              SSD |-> N * s2 - s1 * s1,                    \* N * sum (x_i - mean)^2
@@ -120,10 +126,11 @@ RECURSIVE CodeMat(_, _, _)
 CodeMat(M, k, h) == IF k = 0 THEN h ELSE CodeMat(M, k - 1, CodeSeq(M[k], Len(M[k]), h))
 Code(M, w, t) == (CodeMat(M, Len(M), 17) * 31 + w * 8 + t + 1) % 1000003
 Init == /\ \E sh \in Shapes : X \in [1..(sh \div 10) -> [1..(sh % 10) -> ValsM]]
+        /\ CodeMat(X, Len(X), 17) % ModX = ResX
         /\ MissingCount(X) <= MaxMissing
         /\ WellFormed(X)
         /\ v \in Variants
-        /\ type \in Types
+        /\ type \in {tc - 1 : tc \in TypeCodes}
         /\ Code(X, v, type) % Mod = Res
 Next == FALSE /\ UNCHANGED vars
 Spec == Init /\ [][Next]_vars
